@@ -30,12 +30,12 @@ theorem shift_eq (l : List Nat) (p : Nat) :
 theorem prepareDecode_eq (c : Codec F) (msg ecc : List F) (k : Nat) (ee : Bool) (ec : F)
     (oe : Bool) :
     prepareDecode c msg ecc k ee ec oe =
-      if ee && oe && ((if ee then some ((List.range (msg ++ ecc).length).filter
+      if oe && ((if ee || oe then some ((List.range (msg ++ ecc).length).filter
             (fun i => (msg ++ ecc)[i]? = some ec)) else none).getD []).isEmpty then none
       else some
         { word := (pad msg (effK c k)).1 ++ rpad ecc c.n (effK c k)
           nsym := c.n - effK c k
-          erasePos := (if ee then some ((List.range (msg ++ ecc).length).filter
+          erasePos := (if ee || oe then some ((List.range (msg ++ ecc).length).filter
             (fun i => (msg ++ ecc)[i]? = some ec)) else none).map
               (fun l => l.map (· + (pad msg (effK c k)).2))
           onlyErasures := oe
@@ -50,7 +50,7 @@ theorem pad_not_erasure (c : Codec F) (msg ecc : List F) (k : Nat) (ec : F) (oe 
     call.padLen = effK c k - msg.length ∧
     call.word.take call.padLen = List.replicate call.padLen 0 := by
   rw [prepareDecode_eq] at h
-  simp only [↓reduceIte, Option.map_some] at h
+  simp only [Bool.true_or, ↓reduceIte, Option.map_some] at h
   split at h
   · cases h
   · cases h
@@ -153,6 +153,47 @@ theorem contract_consistent (c : Codec F) (hc : GoodCodec c) : ∃ core : Core F
   refine ⟨cw.drop (c.n - nsym), ?_, Or.inl rfl⟩
   simp only [dif_pos hex, heq]
 
+/-! ### the sanity check of `decode` passes within capacity -/
+
+theorem correctedErrors_eq_errorsOutside {α : Type} [DecidableEq α] (word cw : List α)
+    (l : List Nat) (h : word.length = cw.length) :
+    correctedErrors word cw l = errorsOutside word cw l := by
+  unfold correctedErrors errorsOutside
+  rw [← h, Nat.min_self]
+  congr 1
+  apply List.filter_congr
+  intro i _
+  by_cases hil : i ∈ l <;> simp [hil, Bool.and_comm]
+
+theorem correctedErrors_nil_eq_hdist {α : Type} [DecidableEq α] (word cw : List α)
+    (h : word.length = cw.length) :
+    correctedErrors word cw [] = hdist word cw := by
+  rw [hdist_eq_filter _ _ h]
+  unfold correctedErrors
+  rw [← h, Nat.min_self]
+  congr 1
+  apply List.filter_congr
+  intro i _
+  simp
+
+theorem guard_of_withinCap {α : Type} [DecidableEq α] (word cw : List α) (nsym : Nat)
+    (E : Option (List Nat)) (oe : Bool) (h : word.length = cw.length)
+    (hcap : WithinCap word cw nsym E oe) :
+    2 * correctedErrors word cw (E.getD []) + (E.getD []).length ≤ nsym := by
+  cases E with
+  | none =>
+    obtain ⟨_, ha⟩ := hcap
+    simp only [Option.getD_none, List.length_nil, Nat.add_zero]
+    rw [correctedErrors_nil_eq_hdist _ _ h]
+    exact ha
+  | some l =>
+    obtain ⟨_, _, ha⟩ := hcap
+    simp only [Option.getD_some]
+    rw [correctedErrors_eq_errorsOutside _ _ _ h]
+    cases oe
+    · simpa using ha
+    · simp only [↓reduceIte] at ha; omega
+
 /-! ### exact decoding under contract W -/
 
 theorem decode_of_call (c : Codec F) (hc : GoodCodec c) (core : Core F) (hW : CoreW c core)
@@ -187,6 +228,9 @@ theorem decode_of_call (c : Codec F) (hc : GoodCodec c) (core : Core F) (hW : Co
     · subst h; rw [hlenc, Nat.sub_self]; simp
     · rw [if_pos ha, h]
   rw [hmsg, her']
+  have hguard := guard_of_withinCap _ _ _ E oe
+    (by rw [List.length_append, List.length_append, hpl, hpl', he, hlenc]) hcap
+  rw [if_neg (by omega)]
 
 theorem decode_exact_errors (c : Codec F) (hc : GoodCodec c) (core : Core F) (hW : CoreW c core)
     (msg : List F) (k : Nat) (hm : msg.length ≤ effK c k) (hk : effK c k ≤ c.n)
